@@ -6,6 +6,15 @@ CLAIMED["C05"] = (
     "Decides, for every path of tls.GenerateServerCertificates and of its verifier, that loading the roots, minting a certificate, copying client state and returning success are reachable only over the success edge of signature verification against a record loaded for the request (or the local SkipVerification flag), that a failing record neither authorises nor ends the node-ID search, and that the verifier checks nonce and client-state signatures under the record's key. Structural necessary conditions; Ed25519 and storage contents are not modelled.",
     _T, "DESIGN.md 5/C05")
 
+CLAIMED["C01"] = (
+    "SSA guard-cut reachability over access-path byte-equality guards + value-provenance of the record used as key source + call-graph who-may-call/effects + error-wrapping verb check",
+    "Decides, for every path of registration.FetchNodeCredentials and AuthorizeNode: credentials are encrypted/returned only after validation succeeded and the three bindings (nonce, certificate key, encryption key) between the stored record K and the validated request R were compared equal; K comes only from a load by R's key ID or from the authorisation/token helpers called with R; the wrapped-registration branch authorises only after decrypt success and nonce/key equality; the node-led branch performs no write; only the authorisation helper writes node records and only reviewed callers reach it; AuthorizeNode authorises only for a 32-byte nonce and an ErrNotFound load; ErrNotFound survives every wrapping on the load path. Necessary structural conditions, not the history-level behaviour.",
+    _T, "DESIGN.md 5/C01")
+CLAIMED["C03"] = (
+    "SSA guard-cut reachability + linear time-form normalisation of the validity-window comparisons + call-graph effect dominance",
+    "Decides, for every path of the request validator, that success requires presence checks, key-type equalities, unmarshalling of the signed bytes and ed25519.Verify under the key named inside those bytes over exactly (Bundle, BundleSignature); that the only time comparisons are NotBefore+nbSkew>now and NotAfter+naSkew<now on one clock reading; that in FetchNodeCredentials/AuthorizeNode no storage, wrapper, decrypt or minting call is reachable before validation succeeded; and that created requests sign the bundle they carry with window [now, now+DefaultFetchCredentialsLifetime]. Ed25519 and bit-level mutation outcomes are not decided.",
+    _T, "DESIGN.md 5/C03")
+
 _PENDING = "check not built yet in this round (design in DESIGN.md section 5); will be claimed once its rules are exact on the repaired tree"
 for _p in ["C01","C02","C03","C04","C06","C07","C08","C09","C10","C11","C12","C13","C14","C15","C16","C17","C18","C19","C20"]:
     if _p not in CLAIMED:
